@@ -58,6 +58,7 @@ def queries(tier, seed=0):
     for sh in shapes.values():
         for fo in (False, True):
             qs.append(dict(shape=sh, kind='initobs', target=[1, 0], level='env', fully_obs=fo, no_reach=True))
+            qs.append(dict(shape=sh, kind='initobs', target=[1, 0], level='env', fully_obs=fo, from_state=True))
     return qs
 
 
@@ -70,6 +71,14 @@ def run(src, q):
     r.q, r.w = q, w
     with stubs.sut():
         env = m_env.NASimEnv(w.scenario, fully_obs=q['fully_obs'], flat_obs=False)
+    if q.get('from_state'):
+        # reset at an arbitrary point of an episode: the observation describes the new episode
+        r.pre = scen.symbolic_state(w, env.current_state)
+        r.st = scen.zstatus(r.pre)
+        if src.symbolic:
+            sx.assume(scen.inv(w, r.st))
+            sx.check_feasible()
+    with stubs.sut():
         o, info = env.reset()
     r.obs_rows = dyn.tensor_rows(o)
     r.lastobs_rows = dyn.tensor_rows(env.last_obs.tensor)
